@@ -1,7 +1,7 @@
 """C20 - duplicated rules never contradict each other."""
 import common
 
-THEOREMS = ["c20_label_pairs", "c20_uri_host_pair", "c20_uri_host_old_refuted", "c20_mirror", "c20_limit_pairs", "c20_name_twins", "c20_san_ian_twins", "c20_pub_suffix_copy_differs"]
+THEOREMS = ["c20_label_pairs", "c20_uri_host_pair", "c20_uri_host_old_refuted", "c20_mirror", "c20_limit_pairs", "c20_name_twins", "c20_san_ian_twins", "c20_pub_suffix_copy_differs", "c20_raw_twins"]
 
 
 def run(ctx):
@@ -18,6 +18,11 @@ def run(ctx):
                             "GeneralNames.all_gn_lints (seventeen general-name lints, modelled in full; c20_san_ian_twins applies to the model) vs the real lints")
     if not mon:
         common.report_disagreements(ctx, "gn", fg, "Kernels.GeneralNames.all_gn_lints", [])
+    rheader = gheader + "Definition chkr (c : rview * list Z) : bool := zl_eqb (all_raw_lints (fst c)) (snd c).\n"
+    fr = common.corr_stream(ctx, "gnraw", d["cases"].get("gnraw", []), rheader, "chkr",
+                            "GeneralNames.all_raw_lints (IA5 content of dNSNames / URIs and empty names, SAN and IAN copies) vs the real lints; members read by the harness's own TLV reader")
+    if not mon:
+        common.report_disagreements(ctx, "gnraw", fr, "Kernels.GeneralNames.all_raw_lints", [])
     ctx.oblige("dynamic pair monitor: on every certificate where both members of a pair run on the same content, the statuses agree (same status / finding iff finding / error implies finding); listed known findings excepted", not mon)
     never = d["data"].get("pairs_never_exercised") or []
     ctx.oblige("every one of the %d pairs was exercised with both members running" % d["stats"].get("pairs", 0), not never, str(never))
